@@ -244,7 +244,13 @@ int main(int argc, char* const* argv)
     }
 
     if (ca.m.count('P')) {
-        if (!instance.parse_pretend_valid_expr(ca.m['P'].c_str())) {
+        try {
+            if (!instance.parse_pretend_valid_expr(ca.m['P'].c_str())) {
+                return 1;
+            }
+        } catch (std::exception const& ex) {
+            // the values are compiled like script text: inline functions in them can throw
+            fprintf(stderr, "error parsing --pretend-valid value: %s\n", ex.what());
             return 1;
         }
     }
